@@ -40,6 +40,12 @@ SHAPES_THOROUGH: List[Shape] = [
     ('two-seg-one-word-overlap-rev', [('data', 6), ('seg', 3, 2), ('seg', 0, 4)]),
     ('two-seg-d4-d4', [('data', 8), ('seg', 0, 4), ('seg', 4, 4)]),
 ]
+# three-call histories: what an earlier add_segment leaves in the writer (a data-range bookkeeping that a zero-data segment with a
+# low / high data_start may disturb) must not change how a later data range is judged or re-based
+SHAPES_HISTORY: List[Shape] = [(f'hist-d4-z{z}-s{a}+{n}', [('data', 4), ('seg', 0, 4), ('seg', z, 0), ('seg', a, n)])
+                               for z in (0, 2, 4) for a, n in ((0, 4), (0, 2), (2, 2))] + \
+                              [('hist-z0-d4-shared', [('data', 4), ('seg', 0, 0), ('seg', 0, 4), ('seg', 0, 4)]),
+                               ('hist-d2-d2-z0-shared-first', [('data', 4), ('seg', 0, 2), ('seg', 2, 2), ('seg', 0, 0), ('seg', 0, 2)][:5])]
 # inputs the format cannot represent / the reader would refuse: the writer must reject them itself
 SHAPES_REJECT: List[Shape] = [
     ('odd-data-length', [('data', 3), ('seg', 0, 3)]),
@@ -340,12 +346,12 @@ def run(report: Report, tier: str, only: Optional[str] = None) -> None:
                   Reader.__init__, Reader._init_header_fields, Reader._validate_header, Reader._init_segments,
                   Reader._read_decompressed_data, Reader._decompress_data, Reader._init_memory)
     report.stub(*fjmio.Env.STUBS)
-    report.bounds.update({'call_sequences': [s[0] for s in SHAPES + (SHAPES_THOROUGH if tier == 'thorough' else []) + SHAPES_REJECT],
+    report.bounds.update({'call_sequences': [s[0] for s in SHAPES + (SHAPES_THOROUGH if tier == 'thorough' else []) + SHAPES_HISTORY + SHAPES_REJECT],
                           'symbolic': 'every segment start and length (0..2^64-1), every data word (0..2^w-1)',
                           'concrete_per_config': 'number of calls, data lengths (0..8 words), data range starts',
                           'int_encoding': '96-bit vectors with interval overflow guard'})
     report.outside += ['the LZMA bit stream itself (stubbed by its round-trip contract)', 'lzma preset values (only reach the stub)',
-                       'file-system errors', 'more than 3 segments / 8 data words per call sequence']
+                       'file-system errors', 'more than 4 segments / 8 data words per call sequence']
     report.assumptions += ['lzma.decompress(lzma.compress(x)) == x for the raw LZMA2 filter chain (validated on the real Writer._compress_data / '
                            'Reader._decompress_data per preset on an 11 MiB buffer with matches more than 8 MiB back: not solver-decided)',
                            'z3 5.1.0', 'pysym proxies']
@@ -362,6 +368,9 @@ def run(report: Report, tier: str, only: Optional[str] = None) -> None:
                 continue
             for sh in shapes:
                 cfgs.append((w, version, sh, 'roundtrip'))
+            if tier != 'quick' or (w, version) in ((8, 0), (16, 3), (64, 2)):
+                for sh in SHAPES_HISTORY:
+                    cfgs.append((w, version, sh, 'roundtrip'))
     for w in ((8, 64) if tier == 'quick' else widths):
         for version in ((1, 2) if tier == 'quick' else (0, 1, 2, 3)):
             for sh in SHAPES_REJECT:
